@@ -2,21 +2,33 @@
 """Apply a seeded change to /repo, run the given checks (quick), undo it straight afterwards, record who caught it.
 usage: eval_mutant.py <seeded id> <Cxx> [<Cyy> ...]"""
 import json, os, subprocess, sys
-sid, checks = sys.argv[1], sys.argv[2:]
+args = sys.argv[1:]
+scratch = "--scratch" in args          # evaluate in a scratch worktree (VERIF_REPO) instead of /repo itself: used while a
+args = [a for a in args if a != "--scratch"]     # long background run is reading /repo
+sid, checks = args[0], args[1:]
 d = f"/verif/seeded/{sid}"
-assert subprocess.run("git -C /repo status --porcelain", shell=True, capture_output=True, text=True).stdout.strip() == "", "/repo not clean"
-subprocess.run(f"git -C /repo apply {d}/patch.diff", shell=True, check=True)
+repo = "/repo"
+envp = ""
+if scratch:
+    repo = f"/tmp/ev_wt_{sid}"
+    subprocess.run(f"git -C /repo worktree add -q --detach {repo} HEAD", shell=True, check=True)
+    envp = f"VERIF_REPO={repo} "
+assert subprocess.run(f"git -C {repo} status --porcelain", shell=True, capture_output=True, text=True).stdout.strip() == "", "repo not clean"
+subprocess.run(f"git -C {repo} apply {d}/patch.diff", shell=True, check=True)
 res = {}
 try:
     for c in checks:
-        p = subprocess.run(f"cd /verif && ./check {c} --tier quick", shell=True, capture_output=True, text=True)
+        p = subprocess.run(f"cd /verif && {envp}./check {c} --tier quick", shell=True, capture_output=True, text=True)
         viol = sorted({l.split("(clause ")[1].rstrip(")") for l in p.stdout.split("\n") if l.startswith("VIOLATION") and "(clause " in l})
         res[c] = {"exit": p.returncode, "clauses": viol, "drift_notes": sum(1 for l in p.stdout.split("\n") if "model-drift" in l)}
         print(c, res[c], flush=True)
         if p.returncode == 2:
             print(p.stderr[-1500:])
 finally:
-    subprocess.run("git -C /repo checkout -- . && git -C /repo clean -fdq jade", shell=True, check=True)
+    if scratch:
+        subprocess.run(f"git -C /repo worktree remove --force {repo}; git -C /repo worktree prune", shell=True, check=True)
+    else:
+        subprocess.run("git -C /repo checkout -- . && git -C /repo clean -fdq jade", shell=True, check=True)
 meta = json.load(open(f"{d}/meta.json"))
 meta.setdefault("evaluated", {}).update(res)
 meta["detected_by"] = sorted(c for c, r in meta["evaluated"].items() if r["exit"] == 1)
